@@ -61,6 +61,11 @@ _BUILTINS = {"len": len, "bool": bool, "int": int, "str": str, "min": min, "max"
              "reversed": lambda x: tuple(reversed(_ordered(x)))}
 
 
+# type names the evaluator can decide isinstance() against for plain values (an empty tuple: never an instance)
+_TYPE_NAMES = {"str": (str,), "unicode_type": (str,), "bytes": (bytes,), "bytes_type": (bytes,), "int": (int,), "numbers.Integral": (int,), "float": (float,),
+               "bool": (bool,), "tuple": (tuple,), "datetime.datetime": (), "datetime.date": (), "dict": (), "list": ()}
+
+
 def _ordered(x):
     """zip/enumerate/reversed need a sequence with a defined order; a set model has none"""
     if isinstance(x, (tuple, str, bytes, range)):
@@ -262,6 +267,19 @@ def _fold3(e: ast.AST, known: Dict[str, object]):
         return q.fold(cmp, names)
     if isinstance(e, ast.IfExp):
         return _fold3(e.body, known) if _fold3(e.test, known) else _fold3(e.orelse, known)
+    if isinstance(e, ast.Call) and q.dotted(e.func) == "isinstance" and len(e.args) == 2 and not e.keywords:
+        obj = _fold3(e.args[0], known)
+        if not isinstance(obj, (str, bytes, int, float, bool, type(None), tuple)):
+            raise q.NotFoldable("isinstance of a modelled value")
+        types = e.args[1].elts if isinstance(e.args[1], ast.Tuple) else [e.args[1]]
+        res = False
+        for t in types:
+            nm = q.dotted(t)
+            if nm not in _TYPE_NAMES:
+                raise q.NotFoldable("isinstance against %s" % nm)
+            if _TYPE_NAMES[nm] and isinstance(obj, _TYPE_NAMES[nm]) and not (nm in ("int", "numbers.Integral", "float") and isinstance(obj, bool) and False):
+                res = True
+        return res
     if isinstance(e, ast.Call) and isinstance(e.func, ast.Name) and e.func.id in _BUILTINS and not e.keywords and not any(isinstance(a, (ast.Starred, ast.GeneratorExp, ast.ListComp)) for a in e.args):
         args = [_fold3(a, known) for a in e.args]
         try:
@@ -313,9 +331,19 @@ def _fold3(e: ast.AST, known: Dict[str, object]):
         for v in e.values:
             if isinstance(v, ast.Constant):
                 out += v.value
-            elif isinstance(v, ast.FormattedValue) and v.format_spec is None:
+            elif isinstance(v, ast.FormattedValue):
                 x = _fold3(v.value, known)
-                out += {-1: format, 115: str, 114: repr, 97: ascii}[v.conversion](x)
+                if v.conversion != -1:
+                    x = {115: str, 114: repr, 97: ascii}[v.conversion](x)
+                spec = ""
+                if v.format_spec is not None:
+                    spec = _fold3(v.format_spec, known)
+                    if not isinstance(spec, str):
+                        raise q.NotFoldable("format spec")
+                try:
+                    out += format(x, spec)
+                except Exception as ex:
+                    raise q.NotFoldable(str(ex))
             else:
                 raise q.NotFoldable("f-string part")
         return out
@@ -483,7 +511,7 @@ def _call_effects(env: Dict[str, object], root: ast.AST, known_self_methods: Dic
             m = x.func.attr
             if recv is None:
                 continue
-            if m in pure_methods or m in PURE_METHODS:
+            if m in pure_methods or m in PURE_METHODS or m in PURE_TEXT_METHODS:
                 continue
             if recv == "self":
                 if m in known_self_methods:
@@ -504,7 +532,7 @@ def _call_effects(env: Dict[str, object], root: ast.AST, known_self_methods: Dic
             if fname in PURE_FUNCS or fname in IDENTITY_CALLS:
                 continue
         # mutable models passed to unknown code are forgotten
-        if isinstance(x.func, ast.Attribute) and (x.func.attr in PURE_METHODS or x.func.attr in pure_methods):
+        if isinstance(x.func, ast.Attribute) and (x.func.attr in PURE_METHODS or x.func.attr in pure_methods or x.func.attr in PURE_TEXT_METHODS):
             continue
         for a in list(x.args) + [k.value for k in x.keywords]:
             d = q.dotted(a) if isinstance(a, (ast.Name, ast.Attribute)) else None
